@@ -187,6 +187,7 @@ class Recorder:
         self.data = None
         self.ch_data = None
         self.init_labels = None
+        self.phase_exc = None
 
 
 REC = Recorder()
@@ -219,7 +220,11 @@ def _wrap_phase(mod, name, phase):
         if fault is not None and fault.get("when", "before") == "before":
             from ticcmon import inject
             raise inject.make_exc(*fault["raise_"])
-        out = orig(model, *a, **k)
+        try:
+            out = orig(model, *a, **k)
+        except BaseException as e:
+            REC.phase_exc = dict(phase=phase, round=rnd, inp=before, exc=e)
+            raise
         count("phase_calls")
         ev = dict(phase=phase, round=rnd, inp=before, inp_after=snap_model(model),
                   out=snap_model(out), same_obj=out is model, inp_obj=model, out_obj=out)
@@ -230,6 +235,9 @@ def _wrap_phase(mod, name, phase):
         REC.live.append((model, ev["inp_after"], where + ":in"))
         if out is not model:
             REC.live.append((out, ev["out"], where + ":out"))
+        if len(REC.live) > 24:      # bound the quadratic cost on long runs; the oldest states are dropped
+            del REC.live[:len(REC.live) - 24]
+            count("alias_monitor_states_dropped")
         REC.phases.append(ev)
         if fault is not None and fault.get("when") == "after":
             from ticcmon import inject
